@@ -1434,12 +1434,25 @@ EGLPNUM_TYPENAME_QSLIB_INTERFACE int EGLPNUM_TYPENAME_QSchange_senses (
 	char *sense)
 {
 	int rval = 0;
+	int i;
 
 	rval = check_qsdata_pointer (p);
 	CHECKRVALG (rval, CLEANUP);
 
 	rval = EGLPNUM_TYPENAME_ILLlib_chgsense (p->lp, num, rowlist, sense);
 	CHECKRVALG (rval, CLEANUP);
+
+	/* only a ranged row can be nonbasic at upper: keep the stored basis loadable */
+	if (p->basis && p->basis->rstat)
+	{
+		for (i = 0; i < num; i++)
+		{
+			if (sense[i] != 'R' && p->basis->rstat[rowlist[i]] == QS_ROW_BSTAT_UPPER)
+			{
+				p->basis->rstat[rowlist[i]] = QS_ROW_BSTAT_LOWER;
+			}
+		}
+	}
 
 	p->factorok = 0;
 	free_cache (p);
